@@ -415,10 +415,12 @@ var requests = []string{"/top", "/top?f=g", "/top?i=h", "/peek?f=g", "/flamegrap
 	"/top?%zz", "/top?n=-5", "/top?unit=parsecs", "/nosuchpage",
 	// the same uncompilable expression under different options (the diagnostic names the option of THIS request), and
 	// requests whose page carries a message of their own ("... expression matched no samples")
+	"/", "/?f=g", "/?g=lines&h=f", "/?calltree=t", "/?n=2",
 	"/top?i=(", "/top?h=(", "/top?s=(", "/top?i=zznomatch", "/top?f=zznomatchb", "/top?h=zznomatchc", "/flamegraph?i=zznomatchd"}
 
 // directed histories next to the random ones: each runs sequentially and (several times) concurrently
 var directedWeb = [][]string{
+	{"/", "/?f=g", "/?g=lines&h=f", "/?calltree=t", "/?n=2", "/top"},
 	{"/top?f=(", "/top?i=(", "/top?h=(", "/top?s=(", "/top?f=("},
 	{"/flamegraph?si=s1", "/flamegraph", "/flamegraph?si=s1", "/flamegraph?g=lines", "/flamegraph?h=f", "/flamegraph?si=s1"},
 	{"/top?i=zznomatch", "/top?f=zznomatchb", "/top?h=zznomatchc", "/top", "/flamegraph?i=zznomatchd", "/top?f=g"},
@@ -426,6 +428,23 @@ var directedWeb = [][]string{
 
 type webServer struct {
 	handlers map[string]http.Handler
+}
+
+// fakeDot puts a scripted `dot` in front of PATH (Graphviz is not installed in the sandbox): it wraps the DOT text it is
+// given into an <svg> element, so the web UI's graph page is served and its body shows the graph description the
+// handler composed for THIS request
+func fakeDot() {
+	dir, err := os.MkdirTemp("", "c10-dot-")
+	if err != nil {
+		run.Infra(err.Error())
+		return
+	}
+	script := "#!/bin/sh\necho '<svg xmlns=\"http://www.w3.org/2000/svg\"><text>'\n/bin/sed -e 's/&/\\&amp;/g' -e 's/</\\&lt;/g' -e 's/>/\\&gt;/g'\necho '</text></svg>'\n"
+	if err := os.WriteFile(filepath.Join(dir, "dot"), []byte(script), 0o755); err != nil {
+		run.Infra(err.Error())
+		return
+	}
+	os.Setenv("PATH", dir+":"+os.Getenv("PATH"))
 }
 
 func (w *webServer) do(req string) (int, []byte, interface{}) {
@@ -619,6 +638,7 @@ func main() {
 		return
 	}
 	prof = theProfile()
+	fakeDot()
 	only := run.Extra // "", "c09" (bad/noop lines and error queries only) or "c10"
 	run.EachCase(func(i int, raw json.RawMessage) {
 		var c scase
